@@ -83,6 +83,20 @@ void h_unit_unmap_get(void)
     pre_live[w] = 0; others_intact();
     VF_REACH("unit_unmap/get"); VF_COVER(npre == VF_N && w == 0, "deep node");
 }
+/* The same unit value mapped twice: abt.h allows a pool's create_unit to hand out the ABT_thread handle itself, so two user
+ * pools may give the SAME unit for one work unit, and a move between them maps the new association before it unmaps the old
+ * one (ABTI_unit_set_associated_pool).  One unmap ends ONE association: the unit must still translate afterwards. */
+void h_unit_unmap_dup(void)
+{
+    build(); VF_ASSUME(npre == 2 && pre_live[0] && pre_live[1]);
+    pre[1]->unit.val = (void *)pre_unit[0]; pre[1]->p_thread = &pre_thread[0]; /* second association of the same unit with the same work unit */
+    unit_unmap_thread(&glob, pre_unit[0]);
+    VF_ASSERT(!lk_held && n_acq == 1 && n_rel == 1, "unmap: one critical section");
+    VF_ASSERT(lookup(pre_unit[0]) == &pre_thread[0], "one unmap ends ONE association: a unit that is still associated (mapped twice, unmapped once) still translates to its work unit");
+    VF_ASSERT((pre[0]->unit.val == (void *)ABT_UNIT_NULL) != (pre[1]->unit.val == (void *)ABT_UNIT_NULL), "exactly one node is tombstoned");
+    if (other_added) VF_ASSERT(lookup(other_unit) == &other_thread, "a mapping made concurrently by another stream is not lost");
+    VF_REACH("unit_unmap dup");
+}
 void h_hash_index(void)
 {
     uintptr_t u; size_t i = unit_get_hash_index((ABT_unit)u);
